@@ -60,6 +60,13 @@ CHECKS = {
    note="Not judged (statement silent): crealm/sname/srealm of TGS replies, the ticket's clear-text realm, the unauthenticated etype label of the enc-part, caddr in a reply when none were requested. Benign variations that must be accepted: enc-part application tag 25<->26, name-type-only change. Trusts the simulated KDC (validated by driving gokrb5's own client through all six etypes).",
    technique="bounded-exhaustive enumeration of single-field perturbations of genuine replies x etype x credential x exchange on the real client against a simulated KDC",
    engine="enum"),
+ "C10": dict(
+   category="model_checking",
+   text="Explicit-state breadth-first search over client operation histories on the real client.Client (rebuilt and replayed per history, run under the cooperative scheduler so that the TGT auto-renewal goroutine runs to quiescence deterministically after every event): alphabet {login, service ticket for two SPNs and an other-realm SPN, clock advance by 1 s / to the next pending timer / to 1 s before and after the earliest cached ticket end / past the TGT end / past renew-till, destroy}; depth 4 (7 thorough) on the default and on a renewable short-lived configuration, depth 3 (4) on a pairwise-covering set of 22 configurations over 9 settings (credential kind, etype list, pre-authentication policy, forwardable, proxiable, canonicalize, renew_lifetime, ticket_lifetime, FAST negotiation); referral chains of 0..8 realms. States are deduplicated by a canonical key (sessions, cache entries and pending timers relative to the clock). Oracle: the simulated KDC validates every request strictly against what the rendered krb5.conf implies and keeps an issue log; every returned (ticket, key) must be in the log for that SPN and inside its validity at return time; operations must succeed against the conformant KDC; exchanges per event are bounded; no deadlock or livelock.",
+   design="DESIGN.md 2/C10, 1.3",
+   note="noaddresses is always set (local interface addresses are environment-dependent). Not judged: re-requesting although a valid ticket is cached. Known finding: authenticator crealm taken from the presented ticket's realm (multi-hop cross-realm and renewal of other-realm service tickets fail). The default schedule only; interleavings are C11's subject.",
+   technique="explicit-state BFS over operation histories on the real client with canonical-state deduplication, against a simulated KDC (request validation + issue log)",
+   engine="bfs+sched"),
  "C12": dict(
    category="fault_enumeration",
    text="Every assignment of a behaviour from {answers, refuses, closes early, silent, answers KRB-ERROR, response-too-big on UDP / partial reply on TCP} to each (KDC, transport) endpoint for 1, 2 and 3 configured KDCs (36 + 1,296 + 46,656 assignments) x udp_preference_limit {1, below the request size, above it} x the orders the random server ordering can produce (all for 1-2 KDCs; the default order for 3 KDCs in the quick tier and all 36 in the thorough tier) is run through the real Client.sendToKDC over the in-memory network. Clauses: success returns exactly the reply of an answering endpoint on a permitted transport (never empty); a surfaced KRBError carries a code some endpoint sent; with no KRB-ERROR endpoint, success iff some permitted endpoint answers; the first responding KDC of the first transport decides (too-big on UDP defers to TCP); connection attempts are bounded by twice the number of endpoints. A reduced set (2 KDCs, 4 behaviours) is also run through Client.Login with the simulated KDC behind the answering endpoints.",
